@@ -27,21 +27,37 @@ inline int pop_front_unichar(std::string_view& s) {
     int n = s[0] & 0xF0;
     int ch = -1;
 
+    // continuation bytes must have the form 10xxxxxx
+    auto is_cont = [](char c) { return (c & 0xC0) == 0x80; };
+
     if ((n & 0x80) == 0) {
         ch = s[0];
         s.remove_prefix(1);
     }
     else if ((n == 0xC0 || n == 0xD0) && s.size() > 1) {
+        if (!is_cont(s[1]))
+            return -1;
         ch = ((s[0] & 0x1F) << 6) | (s[1] & 0x3F);
+        if (ch < 0x80) // overlong encoding
+            return -1;
         s.remove_prefix(2);
     }
     else if ((n == 0xE0) && s.size() > 2) {
-        ch = ((s[0] & 0x1F) << 12) | ((s[1] & 0x3F) << 6) | (s[2] & 0x3F);
+        if (!is_cont(s[1]) || !is_cont(s[2]))
+            return -1;
+        ch = ((s[0] & 0x0F) << 12) | ((s[1] & 0x3F) << 6) | (s[2] & 0x3F);
+        if (ch < 0x800) // overlong encoding
+            return -1;
         s.remove_prefix(3);
     }
     else if ((n == 0xF0) && s.size() > 3) {
-        ch = ((s[0] & 0x1F) << 18) | ((s[1] & 0x3F) << 12) |
+        // lead bytes 0xF8...0xFF are never valid
+        if ((s[0] & 0x08) || !is_cont(s[1]) || !is_cont(s[2]) || !is_cont(s[3]))
+            return -1;
+        ch = ((s[0] & 0x07) << 18) | ((s[1] & 0x3F) << 12) |
             ((s[2] & 0x3F) << 6) | (s[3] & 0x3F);
+        if (ch < 0x10000 || ch > 0x10FFFF) // overlong or beyond Unicode
+            return -1;
         s.remove_prefix(4);
     }
 
